@@ -152,6 +152,103 @@ def run(ck):
                               % (sent, store.committed, drv.consumer.last_committed_offset),
                       "cfg": cfg.line(), "events": C02.jsonable(events), "replay_op": "events"})
 
+    # finding probe F-C03-3 (repaired in /repo d2193f8): the processor fails on the first sub-block of a reply; the application's
+    # errback on the start Deferred calls stop() and start(100); the rest of the OLD reply must not reach the new life
+    for mode in ("async", "sync"):
+        obs, deliv, sentp = LL.probe_restart_in_errback(mode)
+        ck.finding("F-C03-3", obs,
+                   "the processor fails (%s) on [0, 1] of a reply [0..5] (auto_commit_every_n=2); the errback of the start Deferred calls stop() "
+                   "and start(100): the old block's [2, 3], [4, 5] are handed to the processor in the new life and offset 3 is committed past "
+                   "the unprocessed 0, 1 (delivered %r, commit requests %r)" % (mode, deliv, sentp),
+                   {"kind": "finding probe: restart from the start Deferred's errback", "mode": mode, "delivered": deliv,
+                    "commit_requests": sentp, "replay_op": "restart_probe"})
+    # finding probe F-C03-4 (repaired in /repo b73c7f1): a life commits 5; stop(); the coordinator loses the group's offsets; restart
+    # from OFFSET_COMMITTED is told "nothing committed": last_committed_offset must forget 5, and a commit() of the re-processed 5 must
+    # be SENT, not reported "up to date"
+    cfg = CL.Cfg(group=1, acn=0, reset=1)
+    drvq = LL.LDriver(cfg)
+    drvq.values_seen = []
+    evq = [(CL.EV_START, 0), (CL.EV_PLAN, 0, 0), (CL.EV_FETCH_OK, [0, 1, 2, 3, 4, 5], False), (CL.EV_COMMIT,), (CL.EV_COMMIT_OK,), (CL.EV_STOP,),
+           (CL.EV_START, CL.OFFSET_COMMITTED), (CL.EV_REQ_OK, -1), (CL.EV_REQ_OK, 0), (CL.EV_PLAN, 0, 0),
+           (CL.EV_FETCH_OK, [0, 1, 2, 3, 4, 5], False), (CL.EV_COMMIT,)]
+    lc_after_report = "?"
+    for n_, ev in enumerate(evq):
+        drvq.step(ev)
+        if n_ == 7:
+            lc_after_report = drvq.consumer.last_committed_offset
+    sentq = [a[0] for (_, w, a) in drvq.sent if w == "commit"]
+    ck.finding("F-C03-4", lc_after_report is not None or len(sentq) != 2,
+               "after an OffsetFetch reply 'nothing committed' last_committed_offset still reads %r (committed in an earlier life) and commit() of "
+               "the same offset is reported up to date without a request (commit requests sent: %r)" % (lc_after_report, sentq),
+               {"kind": "finding probe: stale last_committed_offset", "cfg": cfg.line(), "events": C02.jsonable(evq), "replay_op": "events"})
+    cases.append(CL.case_line(cfg, C02.plain_events(evq)))
+    impl.append(list(drvq.trace))
+    meta.append(("corpus:F-C03-4", cfg, evq))
+    # implementation-side family: honest histories in which every failure of the start Deferred is answered by stop() + start(offset)
+    # from its errback (monitors only: per-life delivery against the log, values, overlap)
+    n_re = 40 * scale
+    relives = 0
+    for i in range(n_re):
+        cfg = CL.gen_cfg(rnd, group=1)
+        cfg.acn = rnd.choice([1, 2, 3])
+        cfg.acs = 0
+        cfg.reset = 0
+        cfg.maxbuf = -1
+        log = LL.PartitionLog(rnd, n=rnd.randint(12, 40))
+        ents = [o for (o, k, v) in log.entries]
+        store = LL.OffsetStore()
+        ro = [rnd.choice(ents) for _ in range(3)]
+        events, drv, env = LL.honest_run(rnd, cfg, log, store, rnd.choice([40, 70]), fault=rnd.choice([0.0, 0.1]),
+                                         first=[(CL.EV_START, rnd.choice(ents[:3]))], driver_cls=LL.RDriver, restart_offsets=ro,
+                                         weights={CL.EV_STOP: 0, CL.EV_SHUTDOWN: 0, CL.EV_START: 0, "retain": 0, "append": 0,
+                                                  CL.EV_PLAN: 9, CL.EV_COMMIT: 1})
+        ck.hist("restart_in_errback_runs")
+        relives += sum(1 for l in drv.lives if l[2])
+        bad = []
+        m = LL.mon_lives(drv.lives, log.entries)
+        if m:
+            bad.append(("C02_delivered_is_log_segment / C03_no_delivery_after_failure (per life)", m))
+        m = LL.mon_values(drv.values_seen, log.entries)
+        if m:
+            bad.append(("C02 values", m))
+        m = LL.mon_overlap(drv.calls)
+        if m:
+            bad.append(("C02_no_overlap", m))
+        if drv.escaped:
+            bad.append(("no exception escapes a stimulus", "event %d: %s" % (drv.escaped[0], drv.escaped[1])))
+        for (thm, what) in bad:
+            ck.violation({"kind": "monitor (restart from the start Deferred's errback; implementation only)", "theorem": thm, "what": what,
+                          "cfg": cfg.line(), "events": C02.jsonable(events), "restart_offsets": ro,
+                          "log": [[o, list(k) if k is not None else None, list(v) if v is not None else None] for (o, k, v) in log.entries],
+                          "replay_op": "restart_events"})
+    ck.hist("restarts_from_errback", relives)
+    # implementation-side family: the Deferred the processor returned fails with CancelledError although the consumer did not cancel
+    # it (the processor's own timeout).  The model has one kind of processor failure; the driver would report this one under
+    # another failure kind, so: monitors only (REQ, commit_le_processed with the failure discipline, log, store)
+    n_pc = 40 * scale
+    npc = 0
+    for i in range(n_pc):
+        cfg = CL.gen_cfg(rnd, group=1)
+        cfg.acn = rnd.choice([1, 2, 3])
+        cfg.acs = rnd.choice([0, 1])
+        log = LL.PartitionLog(rnd, n=rnd.randint(10, 40))
+        ents = [o for (o, k, v) in log.entries]
+        store0 = None
+        store = LL.OffsetStore(store0)
+        events, drv, env = LL.honest_run(rnd, cfg, log, store, rnd.choice([40, 70]), fault=rnd.choice([0.0, 0.1]), proc_cancel=1.0,
+                                         first=[(CL.EV_START, ents[0])],
+                                         weights={CL.EV_PLAN: 9, "retain": 0, CL.EV_COMMIT: 3, "commit_reply": 10})
+        npc += sum(1 for e in events if e[0] == CL.EV_PROC_FIRE and e[1] == 2)
+        ck.hist("processor_timeout_runs")
+        for (thm, what) in monitors(CL, LL, C02, cfg, events, drv, log, store0, store):
+            ck.violation({"kind": "monitor (processor Deferred fails with CancelledError while the consumer is running; implementation only)",
+                          "theorem": thm, "what": what, "cfg": cfg.line(), "events": C02.jsonable(events),
+                          "log": [[o, list(k) if k is not None else None, list(v) if v is not None else None] for (o, k, v) in log.entries],
+                          "reset": cfg.reset, "replay_op": "events"})
+    ck.hist("processor_failures_by_own_cancel", npc)
+    ck.cov["evaluations"] += n_pc
+    ck.cov["evaluations"] += n_re
+
     # --- 1. honest histories with a group, then crash and resume
     n_runs = 90 * scale
     resumes = 0
@@ -351,6 +448,24 @@ def replay(rp):
         bad = monitors(CL, LL, C02, cfg, [tuple(e) for e in rp["events"]], drv, log, None, None)
         print("monitor verdicts:", json.dumps(bad, indent=1, default=repr))
         return 1 if bad else 0
+    if rp.get("replay_op") == "restart_probe":
+        obs, deliv, sentp = LL.probe_restart_in_errback(rp["mode"])
+        print("delivered:", deliv, "commit requests:", sentp, "observed:", obs)
+        return 1 if obs else 0
+    if rp.get("replay_op") == "restart_events":
+        cfg = CL.Cfg.from_line(rp["cfg"])
+        drv = LL.RDriver(cfg, restart_offsets=rp["restart_offsets"])
+        drv.values_seen = []
+        for e in rp["events"]:
+            e = list(e)
+            if e[0] == CL.EV_FETCH_OK and len(e) > 3 and e[3] is not None:
+                e[3] = bytes(e[3])
+            drv.step(tuple(e))
+        ents = [(o, None if k is None else bytes(k), None if v is None else bytes(v)) for (o, k, v) in rp["log"]]
+        m = LL.mon_lives(drv.lives, ents)
+        print("lives (start offset, blocks, restarted from errback):", drv.lives)
+        print("monitor verdict:", m)
+        return 1 if m else 0
     if rp.get("replay_op") == "composed":
         from props import consumer_compose_lib as CC
         return CC.replay_composed(rp)
